@@ -627,7 +627,14 @@ class Verifier:
             m2 = frontend.load_module(rel, self.repo)
             if attr is None:
                 return VModule(name, m2)
-            return self.module_name(m2, attr, I)
+            v = self.module_name(m2, attr, I)
+            if v is None and rel.endswith("__init__.py"):
+                # `from . import submodule` / `from pkg import submodule`: the name is a module file of the package
+                for cand in (os.path.join(os.path.dirname(rel), attr + ".py"),
+                             os.path.join(os.path.dirname(rel), attr, "__init__.py")):
+                    if os.path.exists(os.path.join(self.repo, cand)):
+                        return VModule(attr, frontend.load_module(cand, self.repo))
+            return v
         return self.external(module, name)
 
     def module_attr(self, o, name, I):
